@@ -34,6 +34,8 @@ pub enum Edit {
     ReAdd(usize),
     AddForeign,
     SwapMsgs(usize, usize),
+    /// a pair (identity public key, fresh message) inserted at this position
+    InsertIdentityPair(usize),
 }
 
 #[derive(Clone, Debug, PartialEq, Eq, Hash, Serialize, Deserialize)]
@@ -133,7 +135,7 @@ impl<C: Suite> M06<C> {
             None => true,
             Some(Edit::AlterMsg(i)) | Some(Edit::AlterKey(i)) | Some(Edit::Drop(i)) | Some(Edit::ReAdd(i)) => *i == 0 || *i == n - 1,
             Some(Edit::SwapMsgs(i, _)) => *i == 0,
-            Some(Edit::AddForeign) | Some(Edit::Reverse) => true,
+            Some(Edit::AddForeign) | Some(Edit::Reverse) | Some(Edit::InsertIdentityPair(_)) => true,
             _ => false,
         }
     }
@@ -192,6 +194,9 @@ impl<C: Suite> Model for M06<C> {
                     a.push(Act::Edit(Edit::ReAdd(i)));
                 }
                 a.push(Act::Edit(Edit::AddForeign));
+                for pos in [0, 1, n / 2, n - 1, n] {
+                    a.push(Act::Edit(Edit::InsertIdentityPair(pos)));
+                }
                 if n <= 6 {
                     for i in 0..n {
                         for j in i + 1..n {
@@ -296,6 +301,7 @@ impl<C: Suite> Model for M06<C> {
                             list.push(p);
                         }
                         Edit::AddForeign => list.push((foreign, b"foreign".to_vec())),
+                        Edit::InsertIdentityPair(pos) => list.insert(pos, (PublicKey(PkP::<C>::identity()), b"a message nobody signed".to_vec())),
                         Edit::SwapMsgs(i, j) => {
                             let t = list[i].1.clone();
                             list[i].1 = list[j].1.clone();
@@ -306,6 +312,20 @@ impl<C: Suite> Model for M06<C> {
                 let v = guard(|| agg.verify(&list));
                 o.calls(2);
                 let acc = matches!(v, Ok(Ok(())));
+                // the scheme traits' own aggregate_verify must take the same decision (all states of small lists,
+                // the honest list and the end-position edits of large ones)
+                if self.use_reference(n, edit) {
+                    let sigp = Vec::<u8>::from(&agg);
+                    let sigp = pt_from::<SgP<C>>(&sigp[1..]).expect("aggregate point");
+                    let it = list.iter().map(|(p, m)| (p.0, m.clone()));
+                    let tv = guard(|| match s {
+                        Scheme::Basic => <C as BlsSignatureBasic>::aggregate_verify(it, sigp),
+                        Scheme::Aug => <C as BlsSignatureMessageAugmentation>::aggregate_verify(it, sigp),
+                        Scheme::Pop => <C as BlsSignaturePop>::aggregate_verify(it, sigp),
+                    });
+                    o.calls(1);
+                    o.expect(&format!("C06:trait-aggregate_verify-agrees:{}:{}", g, s.name()), matches!(tv, Ok(Ok(()))) == acc && tv.is_ok(), verdict(&v), verdict(&tv));
+                }
                 o.record("acc", &[acc as u8]);
                 let key = format!("C06:{}:{}:{:?}:{}", g, s.name(), pat, cls);
                 if v.is_err() {
